@@ -492,7 +492,8 @@ class Outcome:
         self.trace: list = []
         self.main_proc_name_after = None
         self.leaked_threads = 0
-        self.window_log: list = []
+        self.window_ops: list = []
+        self.window_lines: list = []
         self.instance_children: dict = {}
         self.instance_node: dict = {}
         self.requested_serials: list[int] = []
@@ -623,6 +624,16 @@ def execute(sc: dict, ch: Choices, storage_dir: Optional[str]) -> Outcome:
                 if line_coord:
                     sim.yp('line')
             elif e.kind == 'worker':
+                if e.phase == 'save' and (inject_line is not None or count_lines):
+                    idx = window_lines[0]
+                    window_lines[0] += 1
+                    if count_lines:
+                        out.window_lines.append((idx, linemon.short(code.co_filename), line))
+                    if inject_line is not None and idx == inject_line['index'] and not inject_line.get('done'):
+                        inject_line['done'] = True
+                        rec.fired('line-exception')
+                        rec.ev('fault', 'line', idx, linemon.short(code.co_filename), line)
+                        raise InjectedError(f'simlab injected exception at {linemon.short(code.co_filename)}:{line}')
                 if line_mode == 'all' or (line_mode == 'save' and e.phase == 'save'):
                     sim.yp('line', (linemon.short(code.co_filename), line))
             elif line_coord:
@@ -639,7 +650,7 @@ def execute(sc: dict, ch: Choices, storage_dir: Optional[str]) -> Outcome:
                 idx = window_lines[0]
                 window_lines[0] += 1
                 if count_lines:
-                    out.window_log.append((idx, linemon.short(code.co_filename), line))
+                    out.window_lines.append((idx, linemon.short(code.co_filename), line))
                 if inject_line is not None and idx == inject_line['index'] and not inject_line.get('done'):
                     inject_line['done'] = True
                     rec.fired('line-exception')
@@ -741,7 +752,7 @@ def execute(sc: dict, ch: Choices, storage_dir: Optional[str]) -> Outcome:
     out.fault_counts = dict(rec.fault_counts)
     out.main_lines = rec.main_lines
     out.logs = rec.logs
-    out.window_log = out.window_log or ctl.window_log
+    out.window_ops = ctl.window_log
     if sim is not None:
         out.vtime = sim.clock
         out.steps = sim.steps
